@@ -13,7 +13,7 @@ import (
 func CompileToGetDecoder(typ *runtime.Type) (Decoder, error) {
 	initDecoder()
 	typeptr := uintptr(unsafe.Pointer(typ))
-	if typeptr > typeAddr.MaxTypeAddr {
+	if typeptr > typeAddr.MaxTypeAddr || typeptr < typeAddr.BaseTypeAddr {
 		verifhook.DecBind(-1, typeptr)
 		return compileToGetDecoderSlowPath(typeptr, typ)
 	}
